@@ -27,6 +27,8 @@ struct in_p5 {
     unsigned status;                 /* what word lookup returns */
     unsigned idx[16];
     bool lang_out_null;
+    /* an arbitrary earlier decoding call (other coin, token count, lookup result) */
+    bool history; unsigned h_coin; int h_count; unsigned h_status; unsigned h_idx[16]; bool h_explicit;
 };
 
 static struct in_p5 G;
@@ -100,6 +102,22 @@ static void p5_common(bool explicit_lang) {
     for (int i = 0; i < 8; ++i) tbl[i] = polyseed_mul2_table[i];
     char str0[NS];
     for (int i = 0; i < NS; ++i) str0[i] = G.str[i];
+    if (G.history) {
+        /* history: what was decoded before must not influence this call */
+        struct in_p5 cur = G;
+        VASSUME(G.h_coin < 2048 && G.h_count >= 0 && G.h_count <= 17);
+        VASSUME(G.h_status == POLYSEED_OK || G.h_status == POLYSEED_ERR_LANG || (G.h_status == POLYSEED_ERR_MULT_LANG && !G.h_explicit));
+        for (int i = 0; i < 16; ++i) VASSUME(G.h_idx[i] < 2048);
+        G.coin = cur.h_coin; G.count = cur.h_count; G.status = cur.h_status;
+        for (int i = 0; i < 16; ++i) G.idx[i] = cur.h_idx[i];
+        polyseed_data* hs = NULL; const polyseed_lang* hl = NULL;
+        if (cur.h_explicit) (void)polyseed_decode_explicit(G.str, (polyseed_coin)G.coin, LANG_B, &hs);
+        else (void)polyseed_decode(G.str, (polyseed_coin)G.coin, &hl, &hs);
+        G = cur;
+        dep_install(&G.dep);
+        dep_reset_logs();
+        S_nfkd_calls = S_split_calls = S_pd_calls = S_pde_calls = 0;
+    }
 
     polyseed_data dummy; polyseed_data* out = &dummy;
     const polyseed_lang* lang = LANG_B;
